@@ -7,7 +7,7 @@ CONSTANTS
   RatioDen = 4
   AbNums = {1,3,5}
   AbDen = 8
-  InitFree = TRUE
+  InitFree = FALSE
   MaxWrites = 3
   Variant = "spec"
   Export = FALSE
